@@ -124,3 +124,88 @@ void h_lemma_octet_roundtrip(void)
   CHECK(IMPLIES(g_sl_src_nneg != nneg0, rc < 0 && rc == g_sl_src_err), "a source error is returned unchanged");
   VERIF_CANARY();
 }
+
+/* ------------------------------------------------------------------------ */
+/* frame level */
+
+const size_t *g_sl_off;
+_Bool g_sl_fm;
+const unsigned char *g_sl_pay;
+size_t g_sl_n, g_sl_g;
+
+/* offset map: unconstrained in proof mode (the contract's requires pins it),
+ * computed from the reference definition natively */
+#if VERIF_IS_NATIVE
+#define SL_OFFSETS(off, P, n) \
+  size_t *off = (size_t *)verif_alloc_exact("ghost_off", ((n) + 1) * sizeof(size_t)); \
+  (void)spec_slip_offsets((P), (n), off);
+#else
+#define SL_OFFSETS(off, P, n) \
+  size_t *off = malloc(((n) + 1) * sizeof(size_t)); ASSUME(off != NULL);
+#endif
+
+void h_rfc1055_encode(void)
+{
+  GHOST_HAVOC();
+  IN(_Bool, in_skind) IN(_Bool, in_kkind) IN(uint32_t, in_flags) IN(int, in_state)
+  ASSUME(in_state >= 0 && in_state <= 2);
+  SL_SINK_STATE()
+  SL_SOURCE_STATE(SL_NMAX + 4)
+  ASSUME(in_len - in_pos <= SL_NMAX);
+  SL_OFFSETS(off, in_stream + in_pos, in_len - in_pos)
+  g_sl_off = off;
+  SL_MAKE_SOURCE(src, in_skind)
+  SL_MAKE_SINK(snk, in_kkind)
+  RFC1055Context ctx;
+  ctx.state = in_state; ctx.flags = in_flags;
+  rfc1055_encode(&ctx, &src, &snk);
+  VERIF_CANARY();
+}
+
+/* decode: arbitrary stream / state / flags; with in_fm the stream is
+ * additionally laid out as garbage, delimiters and the encoding of in_pay */
+void h_rfc1055_decode(void)
+{
+  GHOST_HAVOC();
+  IN(_Bool, in_skind) IN(_Bool, in_kkind) IN(uint32_t, in_flags) IN(int, in_state)
+  IN(_Bool, in_fm) IN(size_t, in_n) IN(size_t, in_g)
+  ASSUME(in_state >= 0 && in_state <= 2);
+  ASSUME(in_n <= SL_NMAX && in_g <= SL_NMAX);
+  SL_SINK_STATE()
+  SL_SOURCE_STATE(3 * SL_NMAX + 8)
+  IN_MEM(in_pay, in_n)
+  SL_OFFSETS(off, in_pay, in_n)
+#if VERIF_IS_NATIVE
+  if (in_fm) {
+    /* build the stream the frame-mode precondition describes: the octets in
+     * front of in_pos are kept, then garbage (taken from the input, END
+     * replaced), delimiters, the reference encoding, two more octets */
+    const int sof = (in_flags & 1u) != 0;
+    if (in_state == RFC1055_SEARCH_FOR_START && !sof) verif_spurious("classic mode is never in SEARCH_FOR_START");
+    const size_t skip = in_state == RFC1055_SEARCH_FOR_END ? in_g + 1 : 0;
+    const size_t start = (sof && in_state != RFC1055_NORMAL) ? 1 : 0;
+    const size_t total = in_pos + skip + start + off[in_n] + 1 + 2;
+    unsigned char *s = verif_alloc_exact("ghost_stream", total);
+    size_t o = 0;
+    for (size_t i = 0; i < in_pos; i++) s[o++] = in_stream[i];
+    if (skip) {
+      for (size_t j = 0; j < in_g; j++) {
+        unsigned char c = (in_pos + j < in_len) ? in_stream[in_pos + j] : (unsigned char)(0x11u + j);
+        s[o++] = (c == SLIP_END) ? 0x00 : c;
+      }
+      s[o++] = SLIP_END;
+    }
+    if (start) s[o++] = SLIP_END;
+    o += spec_slip_encode(in_pay, in_n, s + o);
+    s[o++] = 0x42; s[o++] = SLIP_END;
+    g_sl_src = s; g_sl_src_len = total;
+  }
+#endif
+  g_sl_fm = in_fm; g_sl_n = in_n; g_sl_g = in_g; g_sl_pay = in_pay; g_sl_off = off;
+  SL_MAKE_SOURCE(src, in_skind)
+  SL_MAKE_SINK(snk, in_kkind)
+  RFC1055Context ctx;
+  ctx.state = in_state; ctx.flags = in_flags;
+  rfc1055_decode(&ctx, &src, &snk);
+  VERIF_CANARY();
+}
